@@ -96,9 +96,12 @@ type TypeSpec struct {
 	Chans  map[string]*ChanSpec
 	Invs   []*Clause // object invariants (plain)
 	Immutable map[string]bool
+	Tracks map[string]string // counter field -> thread-local ghost field holding this thread's contribution
 }
 
 type ChanSpec struct {
+	NoClose bool // channels of this kind are never closed: close() is an obligation `false`, a receive always delivers a message
+	Elem   *CType
 	Path   string
 	CapMin int
 	Var    string
@@ -113,6 +116,7 @@ type Contracts struct {
 	Abstract map[string]*AbstractType // key: importpath.Name
 	Types    map[string]*TypeSpec
 	PtrIfaces map[string]bool // interfaces whose dynamic values are always pointers
+	ChanMsgs []*ChanSpec // package-level message invariants: chanmsg T (v): P
 	Files    []string
 	Errors   []string
 }
@@ -126,8 +130,8 @@ var headWords = map[string]bool{
 	"interface": true, "func": true, "requires": true, "ensures": true, "relational": true,
 	"modifies": true, "panics": true, "decreases": true, "pure": true, "log": true, "logs": true, "loop": true,
 	"invariant": true, "trusted": true, "source": true, "nobody": true, "lock": true, "shared": true,
-	"ghost": true, "chan": true, "params": true, "creates": true, "consumes": true, "havoc": true, "assert": true,
-	"holds": true, "waitset": true, "immutable": true, "ptriface": true, "preserves": true, "each": true, "wraparound": true,
+	"ghost": true, "chan": true, "chanmsg": true, "params": true, "creates": true, "consumes": true, "havoc": true, "assert": true,
+	"holds": true, "waitset": true, "immutable": true, "tracks": true, "ptriface": true, "preserves": true, "each": true, "wraparound": true,
 }
 
 type rawLine struct {
@@ -267,6 +271,17 @@ func (cs *Contracts) LoadContractFile(path, pkgPath string, pkgImports map[strin
 			for _, x := range strings.Split(rest, ",") {
 				curT.Immutable[strings.TrimSpace(x)] = true
 			}
+		case "tracks":
+			// tracks <counter field> by <ghost field>
+			fs := strings.Fields(rest)
+			if curT == nil || len(fs) != 3 || fs[1] != "by" {
+				cs.errf(ctx, c.line, "bad tracks clause: want `tracks field by ghostfield` inside a type block")
+				continue
+			}
+			if curT.Tracks == nil {
+				curT.Tracks = map[string]string{}
+			}
+			curT.Tracks[fs[0]] = fs[2]
 		case "lock":
 			if curT == nil {
 				cs.errf(ctx, c.line, "lock outside type block")
@@ -307,6 +322,33 @@ func (cs *Contracts) LoadContractFile(path, pkgPath string, pkgImports map[strin
 				}
 				curT.Ghost = append(curT.Ghost, QVar{fs[0], e})
 			}
+		case "chanmsg":
+			// chanmsg <elem type> (v) [noclose]: <expr>
+			noclose := false
+			if k := strings.Index(rest, ") noclose:"); k >= 0 {
+				noclose = true
+				rest = rest[:k+1] + rest[k+len(") noclose"):]
+			}
+			i := strings.Index(rest, "(")
+			j := strings.Index(rest, "):")
+			if i < 0 || j < i {
+				cs.errf(ctx, c.line, "bad chanmsg: want `chanmsg T (v): expr`")
+				continue
+			}
+			ct, err := ParseCType(strings.TrimSpace(rest[:i]))
+			if err != nil {
+				cs.errf(ctx, c.line, "%v", err)
+				continue
+			}
+			t := strings.TrimSpace(rest[j+2:])
+			e, err := ParseCExpr(t)
+			if err != nil {
+				cs.errf(ctx, c.line, "%v", err)
+				continue
+			}
+			cs.ChanMsgs = append(cs.ChanMsgs, &ChanSpec{NoClose: noclose, Elem: ct, Path: strings.TrimSpace(rest[:i]), Var: strings.TrimSpace(rest[i+1 : j]),
+				Msg: &Clause{Kind: "chan-msg", Expr: e, Text: t, File: ctx.File, Line: c.line, Ctx: ctx}})
+			curF, curL, curT = nil, nil, nil
 		case "chan":
 			if curT == nil {
 				cs.errf(ctx, c.line, "chan outside type block")
@@ -530,6 +572,9 @@ func isIdent(s string) bool {
 }
 
 func ParseCType(s string) (t *CType, err error) {
+	if strings.ReplaceAll(s, " ", "") == "struct{}" {
+		return &CType{Kind: "emptystruct"}, nil
+	}
 	ts, err := lexC(s)
 	if err != nil {
 		return nil, err
